@@ -514,10 +514,11 @@ class FJParser(sly.Parser):
         error_occurred = True
 
         if token is None:
-            error_string = (
-                f'Syntax Error in {get_position(self.line_position(None))}. '
-                f'Maybe missing }} or {{ before this line?'
-            )
+            try:
+                line = self.line_position(None)
+            except KeyError:
+                line = None  # the file ends inside its very first statement: no line was recorded yet
+            error_string = f'Syntax Error in {get_position(line)}. ' f'Maybe missing }} or {{ before this line?'
         else:
             error_string = f'Syntax Error in {get_position(token.lineno)}, token=("{token.type}", {token.value})'
 
